@@ -288,6 +288,18 @@ def _born(steps, i, name):
     return j
 
 
+def _args_sans_wid(a):
+    return a
+
+
+def _spelled_out(pver, ver, name):
+    """option lines present in exactly one of the two versions of the section"""
+    a, b = _section(pver, name), _section(ver, name)
+    if a is None or b is None:
+        return set()
+    return set(a) ^ set(b)
+
+
 def _section(version, name):
     for n, opts in version["watchers"]:
         if n == name:
@@ -368,6 +380,27 @@ def oracle(case, obs):
                          % (name, len(w["pids"]), len(fw["pids"])))
             if not set(w["pids"]) <= set(o["live"]):
                 fail(i, "c12:dead-worker-listed", "%s lists %r, alive are %r" % (name, w["pids"], o["live"]))
+            # -- a worker spawned by this reload gets the command line and environment the file specifies
+            if fw["pids"]:
+                fenv = f["spawn_env"].get(str(fw["pids"][0]))
+                fargs = _args_sans_wid(f["spawn_args"].get(str(fw["pids"][0])))
+                for p in w["pids"]:
+                    if p not in o["spawned"]:
+                        continue
+                    env = o["spawn_env"].get(str(p))
+                    if _args_sans_wid(o["spawn_args"].get(str(p))) != fargs:
+                        fail(i, "c12:new-worker-command", "%s: worker %d was spawned as %r, a fresh start spawns %r"
+                             % (name, p, o["spawn_args"].get(str(p)), f["spawn_args"].get(str(fw["pids"][0]))))
+                    if env != fenv:
+                        ks = sorted(k for k in set(env or {}) | set(fenv or {}) if (env or {}).get(k) != (fenv or {}).get(k))
+                        if set(ks) <= set(EXC):
+                            fail(i, "c12:env-exceptions-deleted-from-live-env",
+                                 "%s: worker %d spawned by this reload got no %s; the file says %r (an earlier reload "
+                                 "deleted the _ENV_EXCEPTIONS names from the watcher's live env dict)"
+                                 % (name, p, ks, {k: (fenv or {}).get(k) for k in ks}))
+                        else:
+                            fail(i, "c12:new-worker-environment", "%s: worker %d got %r for %s, a fresh start gives %r"
+                                 % (name, p, {k: (env or {}).get(k) for k in ks}, ks, {k: (fenv or {}).get(k) for k in ks}))
         # -- nobody is left behind
         owned = set(p for w in o["watchers"] for p in w["pids"])
         if set(o["live"]) - owned:
@@ -387,8 +420,14 @@ def oracle(case, obs):
                 continue
             if fw["np"] == fpw["np"]:
                 if w["pids"] != pw["pids"]:
-                    fail(i, "c12:unchanged-watcher-disturbed", "%s has the same settings in both files, its pids went "
-                         "from %r to %r" % (name, pw["pids"], w["pids"]))
+                    if _spelled_out(pver, ver, name):
+                        fail(i, "c12:option-line-that-changes-no-setting-restarts-watcher",
+                             "%s: the line(s) %s were added / dropped but every setting (as a fresh start builds it) is "
+                             "the same in both files; its pids went from %r to %r"
+                             % (name, sorted(_spelled_out(pver, ver, name)), pw["pids"], w["pids"]))
+                    else:
+                        fail(i, "c12:unchanged-watcher-disturbed", "%s has the same settings in both files, its pids "
+                             "went from %r to %r" % (name, pw["pids"], w["pids"]))
             else:
                 all_same = False
                 old, new = pw["pids"], w["pids"]
@@ -396,14 +435,23 @@ def oracle(case, obs):
                     ok = set(old) <= set(new) and len(new) - len(old) <= fw["np"] - len(old)
                 else:
                     ok = set(new) <= set(old) and len(new) >= fw["np"]
-                if not ok:
+                if not ok and _spelled_out(pver, ver, name):
+                    fail(i, "c12:option-line-that-changes-no-setting-restarts-watcher",
+                         "%s: numprocesses %d -> %d and the line(s) %s added / dropped, no other setting differs; pids "
+                         "went from %r to %r" % (name, fpw["np"], fw["np"], sorted(_spelled_out(pver, ver, name)), old, new))
+                elif not ok:
                     fail(i, "c12:numprocesses-change-disturbed-workers",
                          "%s: only numprocesses changed (%d -> %d), pids went from %r to %r"
                          % (name, fpw["np"], fw["np"], old, new))
         # -- reloading an unchanged file does nothing
         if all_same and (o.get("spawned") or o.get("signalled")):
-            fail(i, "c12:noop-reload-disturbed", "nothing changed in the file, yet spawned %r signalled %r"
-                 % (o.get("spawned"), o.get("signalled")))
+            if any(_spelled_out(pver, ver, n) for n in want):
+                fail(i, "c12:option-line-that-changes-no-setting-restarts-watcher",
+                     "no setting differs between the two files, yet spawned %r signalled %r"
+                     % (o.get("spawned"), o.get("signalled")))
+            else:
+                fail(i, "c12:noop-reload-disturbed", "no setting differs between the two files, yet spawned %r "
+                     "signalled %r" % (o.get("spawned"), o.get("signalled")))
         if o.get("stable_under_check") is False:
             fail(i, "c12:unstable-under-periodic-check", "the next periodic check changes the workers again")
     # one failure per cause is enough
